@@ -135,6 +135,30 @@ META.update({
     },
 })
 
+META.update({
+    "C16": {
+        "text": "Proof: ParseURI and the standard-library fragments it observes (url.Parse for rootless URLs, SplitHostPort, "
+                "ParseQuery/QueryUnescape, Atoi) are modelled as total functions; the default-port retry is a well-founded "
+                "recursion on a flag (depth <= 1), accepted by Lean without fuel; every result is ok or error. For the "
+                "unrepaired code the non-termination witness is a theorem (missing_port_forever). Correspondence: "
+                "exhaustive strings over the URI alphabet + random/mutated/long/non-ASCII inputs in a crash-observing "
+                "worker; stdlib fragments compared one by one.",
+        "note": PROOF_NOTE + "net/url, net, strconv are modelled, not verified. Stack depth is a runtime notion.",
+        "technique": "Lean 4 termination (well-founded recursion) + exhaustive/random correspondence in a sandboxed worker",
+    },
+    "C17": {
+        "text": "Proof: every URI the model accepts has a non-empty host, port 0..65535, UDP for stun / TCP for stuns, the "
+                "?transport= value or the scheme default for turn/turns (parseProto_spec); DialURI's switch is modelled "
+                "as a decision table: exact transport for the six producible pairs and never plaintext for secure "
+                "schemes over all 5x3 hand-made values. Round trip: decided by the implementation-side predicate on "
+                "exhaustive + grammar inputs (theorem not proved; false for one recorded host shape, F8). DialURI is "
+                "observed through an injected recording network.",
+        "note": PROOF_NOTE + "DTLS with a host NAME cannot be exercised offline (DialURI resolves it first). tls/dtls "
+                "libraries are not modelled beyond being invoked.",
+        "technique": "Lean 4 theorems over the parser model + decision table + predicate-checked correspondence",
+    },
+})
+
 NOT_APPLICABLE = {p: "check not built yet in this round (see DESIGN.md §4 for the plan)" for p in
-                  ["C10", "C11", "C12", "C14", "C15", "C16", "C17",
+                  ["C10", "C11", "C12", "C14", "C15",
                    "C20"]}
